@@ -509,9 +509,10 @@ def own_exits(loop) -> List[ast.AST]:
     return out
 
 
-def must_set_flow(fn_node, transfer: Callable[[ast.AST, frozenset], frozenset], init=frozenset()):
+def must_set_flow(fn_node, transfer: Callable[[ast.AST, frozenset], frozenset], init=frozenset(), edge_transfer=None):
     """Forward must-analysis over sets (join = intersection): (cfg, {node id: set on entry}).  `transfer(stmt, set)` is
-    applied to every completed simple statement; an exceptional edge carries the entry state."""
+    applied to every completed simple statement; an exceptional edge carries the entry state.  `edge_transfer(test, label, set)`
+    (optional) refines the set on the T / F edge of a branch condition."""
     cfg = CFG(fn_node)
     state = {cfg.entry: frozenset(init)}
     work = [cfg.entry]
@@ -522,6 +523,8 @@ def must_set_flow(fn_node, transfer: Callable[[ast.AST, frozenset], frozenset], 
         fout = transfer(node.ast, fin) if node.kind == 'stmt' else fin
         for (l, y) in cfg.succ[nid]:
             f2 = fin if l == 'exc' else fout
+            if edge_transfer is not None and node.kind == 'test' and l in ('T', 'F'):
+                f2 = edge_transfer(node.ast, l, f2)
             old = state.get(y)
             new = f2 if old is None else (old & f2)
             if old is None or new != old:
